@@ -13,7 +13,7 @@ HARNESSES = [{"name": "main", "src": "harness.cpp", "compiler": os.path.join(os.
 RULE = ("a case = one history on one configuration (static_set / flat_set over static_vector / flat_set over an "
         "inplace_vector adaptor, element int; static_set / flat_set over static_vector with a tracked non-trivial "
         "element type that counts live objects and flags uses of moved-from or destroyed values; comparators less, "
-        "greater, transparent less<> with heterogeneous point and band keys, half (equivalence coarser than equality); "
+        "greater, transparent less<> and greater<> with heterogeneous point and band keys, half (equivalence coarser than equality); "
         "capacity 0, 1, 2, 3, 4, 8), keys 0..5 (-3..8 in the random part). Exhaustive part: from every set "
         "reachable at capacity 3 and 4 (every subset of the key universe of size <= capacity, built by inserting its "
         "elements in ascending and in descending order) every sequence of <= 2 further calls (<= 3 for the nearly full static_set in thorough) from "
@@ -43,7 +43,8 @@ RULE = ("a case = one history on one configuration (static_set / flat_set over s
         "comparator that applies (so the reference leg is defined for greater and for a descending stored comparator too); "
         "capacity-aware random histories whose every call is inside its domain (reference leg never na; capacity 8 over "
         "keys -3..8 with 60% starting from 5..8 keys, capacity 4 over 0..5; 120+60 per configuration quick, 1500 thorough); "
-        "at capacity 8 every lookup is asked for every key -3..8. non-trivial = distinct case line whose history reaches a "
+        "at capacity 8 every lookup is asked for every key -3..8; a second transparent comparator, etl::greater<> with the "
+        "heterogeneous point and band keys (static_set / flat_set over static_vector, int and tracked keys, capacity 3 and 8). non-trivial = distinct case line whose history reaches a "
         "non-empty set")
 
 TRUSTED_BASE = ["reference leg: libstdc++ 12 std::set / std::multiset with the same comparator, bounded by the capacity "
@@ -62,7 +63,7 @@ def lst(ks):
 
 
 def order_for(cmp, ks):
-    if cmp == "greater":
+    if cmp in ("greater", "tgreater"):
         return sorted(ks, reverse=True)
     return sorted(ks)
 
@@ -73,7 +74,7 @@ def alphabet(fam, cap, full=True, cmp="less", cur_desc=False):
     cmp, or descending when cur_desc; Compare() = cmp for the constructors): what these members do with other
     input is not part of the property (and not of any theorem), so it is not compared.  cur_desc=None: the current
     order is not known to the generator (random stored-comparator histories): no replace."""
-    cur = "greater" if (cmp == "greater" or cur_desc) else cmp
+    cur = "greater" if (cmp in ("greater", "tgreater") or cur_desc) else cmp
     ops = []
     for k in KEYS:
         ops.append(f"i {k}")
@@ -107,7 +108,7 @@ def alphabet(fam, cap, full=True, cmp="less", cur_desc=False):
         ops.append("x")
         if cur_desc is not None:
             ops.append("iru " + lst(order_for(cur, [1, 4])))
-            ops.append("iru " + lst(order_for(cur, [0, 2, 3, 5])))
+            ops.append("iru " + lst(order_for(cur, [0, 2, 4, 6])))   # pairwise inequivalent under half too; overflows capacity 3
             ops.append("iru " + lst([]))
             ops.append("rp " + lst(order_for(cur, [1, 3])[:cap]))
             ops.append("rp " + lst(order_for(cur, [0, 2, 5, 7])[:cap]))   # a full container
@@ -158,7 +159,7 @@ QUICK_PLAN = {
 
 def ckey(cmp, k):
     """position of key k in the order of comparator cmp (equal value = equivalent key)"""
-    if cmp in ("greater", "desc"):
+    if cmp in ("greater", "desc", "tgreater"):
         return -k
     if cmp == "half":
         return int(k / 2)   # C++ int division truncates towards zero
@@ -414,6 +415,26 @@ def gen(tier, rng):
                 for _ in range((120 if cap == 8 else 60) if quick else 1500):
                     seq = valid_history(fam, cmp, cap, rng.randint(4, 16 if cap == 8 else 10), rng, universe)
                     out.append(f"{fam}_{cmp} {cap} " + " ".join(seq))
+    # --- 2f. the SECOND transparent comparator, etl::greater<> (descending) with heterogeneous point and band keys: with
+    #         less<> alone a heterogeneous overload that hard-codes less<> instead of key_compare cannot be seen.
+    #         From every reachable set at capacity 3 every call (then every lookup for every key, point and band);
+    #         domain-respecting random histories at capacity 3 and 8
+    for fam in ("ss", "fsv", "sst", "fst"):
+        cmp = "tgreater"
+        if fam in ("ss", "fsv") or not quick:
+            alpha = alphabet(fam, 3, cmp=cmp)
+            for pre, first in reach_prefixes(3, not quick):
+                head = f"{fam}_{cmp} 3 {pre}".rstrip()
+                out.append(head)
+                for o1 in alpha:
+                    out.append(f"{head} {o1}")
+                    if first and rng.random() < (0.005 if quick else 0.03):
+                        for o2 in alpha:
+                            out.append(f"{head} {o1} {o2}")
+        for cap, universe in ((8, list(range(-3, 9))), (3, KEYS)):
+            for _ in range((100 if cap == 8 else 50) if quick else 1500):
+                seq = valid_history(fam, cmp, cap, rng.randint(4, 16 if cap == 8 else 10), rng, universe)
+                out.append(f"{fam}_{cmp} {cap} " + " ".join(seq))
     # --- 3. all histories from the empty set over the core alphabet (insert / erase of every key, clear, swap)
     for fam in FAMS + TRACKED:
         for cmp in CMPS:
